@@ -22,7 +22,7 @@ structure NodeOk (i : Nat) (st : NState) : Prop where
   id : st.raft.id = i
   nb : st.raft.batchAppend = false
 
-theorem node_ok (H : Hyp2 cfg c0 h) {n : Nat} {s : Sys} (hn : h[n]? = some s) {i : Nat}
+theorem node_ok (H : Hyp2w cfg c0 h) {n : Nat} {s : Sys} (hn : h[n]? = some s) {i : Nat}
     {st : NState} (hi : s.node i = some st) : NodeOk i st := by
   obtain ⟨s0, _, hall⟩ := H.inv_at
   have hm := mem_of_get hn
@@ -73,7 +73,7 @@ inductive CallStep (a : Sys) (v : Nat) (sta stb : NState) : Prop
   | compacted (k : Nat) (ho : CompactOut sta stb k)
 
 /-- a call that is not a compaction: as without compaction (`Cluster.CallStep`) -/
-theorem call_step0 (H : Hyp2 cfg c0 h) {n : Nat} {a : Sys} (ha : h[n]? = some a) {k : Nat}
+theorem call_step0 (H : Hyp2w cfg c0 h) {n : Nat} {a : Sys} (ha : h[n]? = some a) {k : Nat}
     {st st' : NState} {rnd : Option Nat} {op : NodeOp} {res : OpRes} (h1 : a.node k = some st)
     (hop : appOp op = true ∨ ∃ m, op = .step m ∧ m ∈ a.net ∧ m.to = k)
     (hnc : ∀ j, op ≠ .compact j)
@@ -101,7 +101,7 @@ theorem call_step0 (H : Hyp2 cfg c0 h) {n : Nat} {a : Sys} (ha : h[n]? = some a)
       | acc ha' hc hci hs ht _ => exact .acc m h2 hty h3 ha' hc hci hs ht
     · exact generic (fun m' hm' => by cases hm'; exact hty)
 
-theorem call_step (H : Hyp2 cfg c0 h) {n : Nat} {a : Sys} (ha : h[n]? = some a) {k : Nat}
+theorem call_step (H : Hyp2w cfg c0 h) {n : Nat} {a : Sys} (ha : h[n]? = some a) {k : Nat}
     {st st' : NState} {rnd : Option Nat} {op : NodeOp} {res : OpRes} (h1 : a.node k = some st)
     (hop : appOp op = true ∨ ∃ m, op = .step m ∧ m ∈ a.net ∧ m.to = k)
     (hco : ∀ j, op = .compact j → CompactOk st.raft.raftLog j)
@@ -125,7 +125,7 @@ theorem CallStep.node {a : Sys} {v : Nat} {sta stb : NState} (hs : CallStep a v 
   | acc m hm hty hto ha hc hci hs ht => exact .acc m hm hty hto ha hc hci hs ht
   | compacted k ho => exact .compacted k ho
 
-theorem node_step (H : Hyp2 cfg c0 h) {n : Nat} {a b : Sys} (ha : h[n]? = some a)
+theorem node_step (H : Hyp2w cfg c0 h) {n : Nat} {a b : Sys} (ha : h[n]? = some a)
     (hb : h[n + 1]? = some b) {v : Nat} {sta stb : NState} (hva : a.node v = some sta)
     (hvb : b.node v = some stb) : NodeStep a v sta stb := by
   obtain ⟨s0, _, hall⟩ := H.inv_at
@@ -183,7 +183,7 @@ def HistChain (h : List Sys) (g : LLog) : Prop :=
   ∃ (m : Nat) (s : Sys) (loc : Loc), h[m]? = some s ∧ At s loc g
 
 /-- the chains of a history agree pairwise (Log Matching across time) -/
-theorem hist_agree (H : Hyp2 cfg c0 h) : ∀ g g', HistChain h g → HistChain h g' → Agree g g' := by
+theorem hist_agree (H : Hyp2w cfg c0 h) : ∀ g g', HistChain h g → HistChain h g' → Agree g g' := by
   rintro g g' ⟨m, s, l, hm, hat⟩ ⟨m', s', l', hm', hat'⟩
   exact agree_all H m m' s s' hm hm' l l' g g' hat hat'
 
